@@ -373,11 +373,7 @@ def check_json(env, n, hdrs, allow_i, resolve, prot, payload_seg=P):
 
 
 
-def general_json_both(n: int, p0: bool, p1: bool, ap: bool, k0: int, k1: int, v0: bool, v1: bool, keyform: int) -> bool:
-    """
-    pre: 0 <= n <= 2 and 0 <= k0 <= 3 and 0 <= k1 <= 3 and 0 <= keyform <= 2
-    post: _
-    """
+def _general_json_both(n, p0, p1, ap, k0, k1, v0, v1, keyform):
     rt.tick()
     KID = [None, "a", "b", "c"]
     ap0 = ap1 = ap
@@ -399,7 +395,7 @@ def general_json_kf0(n: int, p0: bool, p1: bool, ap: bool, k0: int, k1: int, v0:
     pre: 0 <= n <= 2 and 0 <= k0 <= 3 and 0 <= k1 <= 3
     post: _
     """
-    return general_json_both(n, p0, p1, ap, k0, k1, v0, v1, 0)
+    return _general_json_both(n, p0, p1, ap, k0, k1, v0, v1, 0)
 
 
 def general_json_kf1(n: int, p0: bool, p1: bool, ap: bool, k0: int, k1: int, v0: bool, v1: bool) -> bool:
@@ -407,7 +403,7 @@ def general_json_kf1(n: int, p0: bool, p1: bool, ap: bool, k0: int, k1: int, v0:
     pre: 0 <= n <= 2 and 0 <= k0 <= 3 and 0 <= k1 <= 3
     post: _
     """
-    return general_json_both(n, p0, p1, ap, k0, k1, v0, v1, 1)
+    return _general_json_both(n, p0, p1, ap, k0, k1, v0, v1, 1)
 
 
 def general_json_kf2(n: int, p0: bool, p1: bool, ap: bool, k0: int, k1: int, v0: bool, v1: bool) -> bool:
@@ -415,7 +411,7 @@ def general_json_kf2(n: int, p0: bool, p1: bool, ap: bool, k0: int, k1: int, v0:
     pre: 0 <= n <= 2 and 0 <= k0 <= 3 and 0 <= k1 <= 3
     post: _
     """
-    return general_json_both(n, p0, p1, ap, k0, k1, v0, v1, 2)
+    return _general_json_both(n, p0, p1, ap, k0, k1, v0, v1, 2)
 
 
 def general_json_witness(n: int, p0: bool, p1: bool, ap: bool, k0: int, k1: int, v0: bool, v1: bool, keyform: int) -> bool:
